@@ -363,6 +363,8 @@ func (x *Explorer) intrinsic(fr *Frame, st *State, ins *ssa.Call, callee *ssa.Fu
 			return &Sym{N: "ctx", T: ins.Type()}, true
 		case "Context.BlockTime":
 			return &Sym{N: "blocktime", T: ins.Type()}, true
+		case "EventManager.EmitTypedEvent", "EventManager.EmitTypedEvents":
+			return x.emitEvent(fr, st, ins, args), true
 		case "Context.EventManager", "Context.GasMeter", "Context.Logger", "Context.BlockHeight":
 			return &Sym{N: name, T: ins.Type()}, true
 		case "NewCoin":
